@@ -91,6 +91,20 @@ def core_det(tier):
         add(3, S.box_geom(3, x0=[3.0, 3.0, -2.0]), {"family": "quad", "min": [0.1, 0.2, 0.3], "eig": [1, 1, 1], "rot_seed": 0},
             {"accelerate_mesh": False, "max_fun_evals": 200}, tags=["noaccel"])
         add(2, S.box_geom(2, x0=[3.0, 3.0]), _quad(2, r), {"complete_poll": True}, tags=["complete_poll"])
+        # polls with several improving points (poll-driven runs, complete polling)
+        add(3, S.box_geom(3, x0=[3.0, -3.0, 2.0]), _quad(3, r, cond=3.0), {"complete_poll": True, "search_n_try": 0, "max_fun_evals": 90},
+            tags=["complete_poll", "ntry0", "multi_improve"])
+        add(2, S.box_geom(2, x0=[3.5, -2.5]), {"family": "absval", "min": [0.3, 0.2], "w": [1.0, 0.7]},
+            {"complete_poll": True, "search_n_try": 0, "max_fun_evals": 70}, tags=["complete_poll", "ntry0", "multi_improve"])
+        add(4, S.box_geom(4, x0=[3.0, -3.0, 2.0, -1.0]), _quad(4, r, cond=2.0), {"complete_poll": True, "search_n_try": 1, "max_fun_evals": 120},
+            tags=["complete_poll", "ntry1", "multi_improve"])
+        # rippled bowls: the GP cannot rank the poll points, so polls see improving
+        # points in arbitrary order (several improving points per poll)
+        for j in range(6 if tier == "quick" else 10):
+            Dj = 3 if j % 2 == 0 else 2
+            add(Dj, S.box_geom(Dj, x0=[3.0, -3.0, 2.0][:Dj]),
+                {"family": "ripple", "min": [0.3, 0.2, -0.4][:Dj], "amp": 2.0, "freq": 37.0 + j + r.randrange(5)},
+                {"complete_poll": True, "search_n_try": 0, "max_fun_evals": 70}, tags=["ripple", "complete_poll", "ntry0"])
         add(2, S.box_geom(2, x0=[-3.0, 1.0]), _quad(2, r), {"tol_mesh": 3e-4, "max_fun_evals": 200}, tags=["tolmesh"])
         add(2, S.box_geom(2, x0=[-3.0, 1.0]), _quad(2, r), {"tol_mesh": 1e-2, "max_fun_evals": 200}, tags=["tolmesh"])
         add(1, S.box_geom(1, x0=[-3.0]), _quad(1, r), {"tol_mesh": 1e-3, "max_fun_evals": 150}, tags=["tolmesh"])
